@@ -538,10 +538,11 @@ impl Server {
                 None => {
                     // Another client took the element first. The wake-up removed this client's
                     // registrations, so register it again: it keeps waiting until its deadline
-                    // instead of being stranded in the blocked state.
+                    // instead of being stranded in the blocked state -- in the place it had, not
+                    // behind the clients that blocked after it.
                     let keys = blocked.keys.iter().map(|(_, key)| key.clone()).collect();
-                    self.blocking_manager.register_blocked(
-                        wakeup.db, wakeup.conn_id, keys, blocked.op_type.clone(), blocked.deadline)?;
+                    self.blocking_manager.reinstate_blocked(
+                        wakeup.db, wakeup.conn_id, keys, blocked.op_type.clone(), blocked.deadline, wakeup.blocked_at)?;
                     Ok(true)
                 }
             }
